@@ -221,11 +221,251 @@ fn big_jobs(rng: &mut Rng64, operands: usize) -> Vec<(&'static str, Vec<String>)
     jobs
 }
 
+/// Library-independent builder of few-node diagrams over MANY variables: hash-consed reduced DAG pieces
+/// (truth tables over a handful of chosen variable positions, and/or-chains of literals) composed bottom-up
+/// (higher variables first), then laid out in DFS post-order taking the HIGH child first.
+struct Dag { n: usize, nodes: Vec<(usize, usize, usize)>, idx: std::collections::HashMap<(usize, usize, usize), usize> }
+impl Dag {
+    fn new(n: usize) -> Dag { Dag { n, nodes: vec![(n, 0, 0), (n, 1, 1)], idx: std::collections::HashMap::new() } }
+    fn mk(&mut self, v: usize, lo: usize, hi: usize) -> usize {
+        if lo == hi { return lo; }
+        if let Some(i) = self.idx.get(&(v, lo, hi)) { return *i; }
+        self.nodes.push((v, lo, hi));
+        self.idx.insert((v, lo, hi), self.nodes.len() - 1);
+        self.nodes.len() - 1
+    }
+    /// the function with truth table `tt` over the ascending variable positions `pos`, with the terminals
+    /// 0 / 1 replaced by the pointers `t0` / `t1` (which must only mention variables above `pos`)
+    fn add_tt(&mut self, pos: &[usize], tt: &[bool], t0: usize, t1: usize) -> usize {
+        let tri = canon_triples(pos.len(), tt);
+        if tri.len() == 1 { return t0; }
+        let mut map: Vec<usize> = vec![t0, t1];
+        for (v, lo, hi) in tri.iter().skip(2) {
+            let p = self.mk(pos[*v], map[*lo], map[*hi]);
+            map.push(p);
+        }
+        *map.last().unwrap()
+    }
+    /// and-chain: all literals hold -> `then_t`, the first failing one -> `else_t`;
+    /// or-chain: the first literal that holds -> `then_t`, all fail -> `else_t` (literals ascending)
+    fn add_chain(&mut self, lits: &[(usize, bool)], and: bool, then_t: usize, else_t: usize) -> usize {
+        let mut cur = if and { then_t } else { else_t };
+        for (x, b) in lits.iter().rev() {
+            let (go_on, exit) = (cur, if and { else_t } else { then_t });
+            // and: literal true -> go on; or: literal true -> exit
+            let (when_true, when_false) = if and { (go_on, exit) } else { (exit, go_on) };
+            cur = if *b { self.mk(*x, when_false, when_true) } else { self.mk(*x, when_true, when_false) };
+        }
+        cur
+    }
+    fn finish(&self, root: usize) -> Bdd {
+        if root == 0 { return bdd_from_triples(&[(self.n, 0, 0)]); }
+        let mut out = vec![(self.n, 0, 0), (self.n, 1, 1)];
+        let mut new_id: std::collections::HashMap<usize, usize> = std::collections::HashMap::new();
+        new_id.insert(0, 0); new_id.insert(1, 1);
+        fn go(d: &Dag, p: usize, out: &mut Vec<(usize, usize, usize)>, new_id: &mut std::collections::HashMap<usize, usize>) -> usize {
+            if let Some(i) = new_id.get(&p) { return *i; }
+            let (v, lo, hi) = d.nodes[p];
+            let h = go(d, hi, out, new_id);
+            let l = go(d, lo, out, new_id);
+            out.push((v, l, h));
+            new_id.insert(p, out.len() - 1);
+            out.len() - 1
+        }
+        go(self, root, &mut out, &mut new_id);
+        bdd_from_triples(&out)
+    }
+}
+
+/// ascending sample of `k` distinct positions out of `lo..hi`
+fn positions(rng: &mut Rng64, lo: usize, hi: usize, k: usize) -> Vec<usize> {
+    let mut all: Vec<usize> = (lo..hi).collect();
+    shuffle(rng, &mut all);
+    all.truncate(k.min(hi - lo));
+    all.sort();
+    all
+}
+
+/// one few-node set over `n` variables (n >= 54); returns the diagram and its support
+fn wide_set(rng: &mut Rng64, n: usize, shape: u64) -> (Bdd, Vec<usize>) {
+    let mut d = Dag::new(n);
+    let root = match shape {
+        0 => {
+            // a cube of 1..70 literals, sometimes touching the first / last variable
+            let k = 1 + rng.below(70.min(n as u64)) as usize;
+            let mut pos = positions(rng, 0, n, k);
+            if rng.bool() { pos[0] = 0; }
+            if rng.bool() { let l = pos.len() - 1; if l > 0 || pos[0] != 0 { pos[l] = n - 1; } }
+            pos.sort(); pos.dedup();
+            let lits: Vec<(usize, bool)> = pos.iter().map(|x| (*x, rng.bool())).collect();
+            d.add_chain(&lits, true, 1, 0)
+        }
+        1 => {
+            // union of 2-3 short cubes (and other small functions) on <= 10 scattered variables
+            let k = 2 + rng.below(9) as usize;
+            let pos = positions(rng, 0, n, k);
+            let k = pos.len();
+            let cubes = 2 + rng.below(2) as usize;
+            let mut tt = vec![false; 1 << k];
+            for _ in 0..cubes {
+                let m = rng.next() as usize & ((1 << k) - 1); let v = rng.next() as usize & m;
+                for i in 0..(1usize << k) { if i & m == v { tt[i] = true; } }
+            }
+            d.add_tt(&pos, &tt, 0, 1)
+        }
+        2 => {
+            // small random DAG on <= 10 support variables
+            let k = 1 + rng.below(10) as usize;
+            let pos = positions(rng, 0, n, k);
+            let tt = random_tt(rng, pos.len());
+            d.add_tt(&pos, &tt, 0, 1)
+        }
+        3 | 4 => {
+            // "one long cube or one short clause": counts 2^k +- small. The long cube takes 52..69 variables (or
+            // n - 1 of them), the short clause 1-2 variables placed above, below or inside the cube's range.
+            let long = (n - 1).min(if shape == 3 { 52 + rng.below(18) as usize } else { 53 + rng.below(12) as usize });
+            let start = if rng.bool() { 0 } else { rng.below((n - long) as u64) as usize };
+            let clause_after = rng.bool() && start + long < n;
+            let cube: Vec<(usize, bool)> = (start..start + long).map(|x| (x, shape == 4 || rng.chance(3, 4))).collect();
+            if clause_after {
+                let c = if rng.bool() { n - 1 } else { start + long + rng.below((n - start - long) as u64) as usize };
+                let clause = d.add_chain(&[(c, rng.bool())], false, 1, 0);
+                d.add_chain(&cube, true, 1, clause)
+            } else if start > 0 {
+                let c = if rng.bool() { 0 } else { rng.below(start as u64) as usize };
+                let cube_root = d.add_chain(&cube, true, 1, 0);
+                d.add_chain(&[(c, rng.bool())], false, 1, cube_root)
+            } else {
+                // clause on the last cube variable's neighbour: cube over start.., clause = the variable after
+                let c = (start + long).min(n - 1);
+                let cube2: Vec<(usize, bool)> = cube.iter().cloned().filter(|l| l.0 != c).collect();
+                let clause = d.add_chain(&[(c, false)], false, 1, 0);
+                d.add_chain(&cube2, true, 1, clause)
+            }
+        }
+        5 => {
+            // a long clause (complement of a cube): count 2^n - 2^(n-k)
+            let k = 2 + rng.below(66) as usize;
+            let pos = positions(rng, 0, n, k);
+            let lits: Vec<(usize, bool)> = pos.iter().map(|x| (*x, rng.bool())).collect();
+            d.add_chain(&lits, false, 1, 0)
+        }
+        6 => {
+            // long cube AND / OR a small function on higher variables
+            let long = 20 + rng.below(40) as usize;
+            let cube: Vec<(usize, bool)> = positions(rng, 0, n - 12, long).into_iter().map(|x| (x, rng.bool())).collect();
+            let top = cube.last().unwrap().0 + 1;
+            let kk = 1 + rng.below(6) as usize;
+            let pos = positions(rng, top, n, kk);
+            let tt = random_tt(rng, pos.len());
+            let g = d.add_tt(&pos, &tt, 0, 1);
+            if rng.bool() { d.add_chain(&cube, true, g, 0) } else { d.add_chain(&cube, true, 1, g) }
+        }
+        _ => {
+            // a small function on LOW variables whose 1-terminal is replaced by a cube on higher variables and
+            // whose 0-terminal by a short clause there
+            let kk = 1 + rng.below(5) as usize;
+            let pos = positions(rng, 0, 20, kk);
+            let tt = random_tt(rng, pos.len());
+            let kc = 1 + rng.below(40) as usize;
+            let cube: Vec<(usize, bool)> = positions(rng, 20, n, kc).into_iter().map(|x| (x, rng.bool())).collect();
+            let t1 = d.add_chain(&cube, true, 1, 0);
+            let t0 = if rng.bool() { 0 } else { let c = 20 + rng.below((n - 20) as u64) as usize; d.add_chain(&[(c, rng.bool())], false, 1, 0) };
+            d.add_tt(&pos, &tt, t0, t1)
+        }
+    };
+    let bdd = d.finish(root);
+    let mut support: Vec<usize> = bdd.clone().to_nodes().iter().skip(2).map(|x| x.var.to_index()).collect();
+    support.sort(); support.dedup();
+    assert!(support.iter().all(|x| *x < n), "harness bug: wide set mentions a variable outside its variable set");
+    (bdd, support)
+}
+
+/// the whole family on one wide set: selected / restricted / picked variables inside and outside the support,
+/// first and last variable, lists covering all support variables
+fn wide_ops(bdd: &Bdd, support: &[usize], rng: &mut Rng64, out: &mut Out) {
+    let n = bdd.num_vars() as usize;
+    let b = fmt_bdd(bdd);
+    let inside = |rng: &mut Rng64| if support.is_empty() { rng.below(n as u64) as usize } else { *rng.pick(support) };
+    let outside = |rng: &mut Rng64| { for _ in 0..50 { let x = rng.below(n as u64) as usize; if !support.contains(&x) { return x; } } n - 1 };
+    let first_s = support.first().cloned().unwrap_or(0);
+    let last_s = support.last().cloned().unwrap_or(n - 1);
+    let bit = |v: bool| s(if v { "1" } else { "0" });
+    let mut xs: Vec<usize> = vec![first_s, last_s, inside(rng), outside(rng), 0, n - 1];
+    xs.sort(); xs.dedup();
+    for x in &xs {
+        let v = rng.bool();
+        run("C06.vsel", &[b.clone(), x.to_string(), bit(v)], out);
+        run("C06.vres", &[b.clone(), x.to_string(), bit(!v)], out);
+        run("C06.vpick", &[b.clone(), x.to_string()], out);
+        run("C06.vpickr", &[b.clone(), x.to_string(), bit(rng.bool())], out);
+        run("C06.vex", &[b.clone(), x.to_string()], out);
+        if rng.chance(1, 3) { run("C06.vall", &[b.clone(), x.to_string()], out); }
+    }
+    for _ in 0..2 {
+        let mut lits: Vec<(usize, bool)> = vec![(inside(rng), rng.bool()), (outside(rng), rng.bool()), (inside(rng), rng.bool())];
+        if rng.bool() { lits.push((last_s, rng.bool())); }
+        if rng.bool() { lits.push((0, rng.bool())); }
+        let d = disguise(rng, &lits);
+        run("C06.select", &[b.clone(), fmt_lits(&d)], out);
+        let d = disguise(rng, &lits);
+        run("C06.restrict", &[b.clone(), fmt_lits(&d)], out);
+    }
+    // selecting / restricting every support variable to a satisfying-looking or random value
+    if !support.is_empty() && support.len() <= 80 {
+        let lits: Vec<(usize, bool)> = support.iter().map(|x| (*x, rng.bool())).collect();
+        run("C06.select", &[b.clone(), fmt_lits(&lits)], out);
+        let mut r = lits.clone(); r.reverse();
+        run("C06.restrict", &[b.clone(), fmt_lits(&r)], out);
+    }
+    let mut lists: Vec<Vec<usize>> = vec![
+        vec![last_s], vec![first_s], vec![outside(rng)], vec![last_s, first_s], vec![n - 1, 0],
+        vec![inside(rng), outside(rng), inside(rng)],
+    ];
+    if support.len() <= 80 {
+        let mut all = support.to_vec(); shuffle(rng, &mut all); lists.push(all.clone());
+        all.push(outside(rng)); all.push(outside(rng)); if let Some(x) = support.first() { all.push(*x); }
+        shuffle(rng, &mut all); lists.push(all);
+        if support.len() > 2 { let mut most = support.to_vec(); most.remove(rng.below(most.len() as u64) as usize); lists.push(most); }
+    }
+    for l in &lists {
+        run("C06.pick", &[b.clone(), fmt_usizes(l)], out);
+        let fl = random_flips(rng, l.len());
+        run("C06.pickr", &[b.clone(), fmt_usizes(l), fmt_bools(&fl)], out);
+    }
+}
+
+/// WIDE operands: few nodes, many variables (counts far beyond 2^53 and, from 1 100 variables on, beyond f64);
+/// set number `k` of the stream
+fn wide_one(rng: &mut Rng64, k: usize, out: &mut Out) {
+    let n = match k % 8 { 0 => 54, 1 => 55 + rng.below(16) as usize, 2 => 64, 3 => 130, 4 => 1100, 5 => 5000, 6 => 54 + rng.below(17) as usize, _ => 1025 + rng.below(200) as usize };
+    let shape = (k as u64 / 8 + rng.below(8)) % 8;
+    let (bdd, support) = wide_set(rng, n, shape);
+    if std::env::var("C06_DEBUG").is_ok() { eprintln!("wide k={} n={} shape={} {}", k, n, shape, fmt_bdd(&bdd)); }
+    wide_ops(&bdd, &support, rng, out);
+}
+/// constants over many variables: pick over everything / nothing, select, restrict
+fn wide_constants(rng: &mut Rng64, out: &mut Out) {
+    for n in [54usize, 70, 1100] {
+        for c in [false, true] {
+            let d = Dag::new(n);
+            let bdd = d.finish(if c { 1 } else { 0 });
+            wide_ops(&bdd, &[], rng, out);
+            let all: Vec<usize> = (0..n).rev().collect();
+            let b = fmt_bdd(&bdd);
+            run("C06.pick", &[b.clone(), fmt_usizes(&all)], out);
+            let fl = random_flips(rng, n);
+            run("C06.pickr", &[b.clone(), fmt_usizes(&all), fmt_bools(&fl)], out);
+        }
+    }
+}
+
 pub fn gen(tier: Tier, rng: &mut Rng64, out: &mut Out) {
     let thorough = tier == Tier::Thorough;
     // the big-operand cases are spread over the stream of small cases so that the runner's shards share them
     let mut bigs = big_jobs(rng, if thorough { 6 } else { 2 });
     bigs.reverse();
+    let mut wide_k = 0usize;
     // the coin convention of `CoinRng` is re-validated on every run
     for t in ["0", "1", "01", "10", "0011010111", "1111100000"] { run("C06.coin", &[s(t)], out); }
     // --- exhaustive small universes (both tiers): every function over n <= 3 variables x every partial
@@ -240,9 +480,15 @@ pub fn gen(tier: Tier, rng: &mut Rng64, out: &mut Out) {
             if n == 3 && t % (if thorough { 5 } else { 15 }) == 7 {
                 if let Some((key, args)) = bigs.pop() { run(key, &args, out); }
             }
+            // wide operands, spread over the stream as well (quick: 96 sets, thorough: 1 536)
+            if n == 3 {
+                let per = if thorough { 6 } else if t % 8 < 3 { 1 } else { 0 };
+                for _ in 0..per { wide_one(rng, wide_k, out); wide_k += 1; }
+            }
         }
     }
     while let Some((key, args)) = bigs.pop() { run(key, &args, out); }
+    wide_constants(rng, out);
     // --- thorough: a sample of the functions over 4 variables with the same treatment, and the one-variable
     //     restrict / pick on ALL 65 536 functions over 4 variables
     if thorough {
